@@ -1,14 +1,675 @@
-// Package c16 is the correspondence area of property C16 (stub: the slice is not built yet).
+// Package c16 is the correspondence area of property C16 (targets can be added, removed and re-added cleanly).
+//
+// Two kinds of case lines, both executed on the REAL code:
+//
+//	rr   <cfg> <op>...   a history on a real grpcbridge.ReflectionRouter (WithConnFunc injects construction failures,
+//	                     connections are real *grpc.ClientConn over bufconn to a real gRPC server)
+//	pool <cfg> <op>...   a history on a real grpcadapter.AdaptedClientPool used directly (New / Get / controller Close)
+//
+// cfg = p<0|1>r<0|1>: p1 = reflection polling enabled (1s interval), p0 = WithDisabledReflectionPolling;
+// r1 = the target server serves the reflection API, r0 = it does not (every resolution fails).
+//
+// ops (i = name index 0..3, k = index of the k-th successfully issued pool controller):
+//
+//	A<i>o|f|p  router.Add(name_i): connection construction ok | fails | Add is called with a per-target option
+//	R<i>       router.Remove(name_i)
+//	N<i>o|f    pool.New(name_i): construction ok | fails
+//	K<k>       controller_k.Close()
+//	G<i>       pool.Get(name_i); a usable result is kept as the caller's handle for name_i
+//	S<i>       handle_i.Stream(...) (opened and closed again)
+//	C<i>       open an in-flight call on handle_i (a stream on which the server never answers) and keep it
+//
+// output = one token per op, then "w=<resolver poller goroutines> n=<len(targets)> alive=<call ids>" observed
+// after the history, then "leak=<goroutines left>" observed after removing every target / closing every controller.
+// While the injected connection constructor runs it probes pool.Get(name) — the "~a|~u|~n" suffix
+// (absent | usable | present-but-nil) is the pool lookup as seen mid-construction.
 package c16
 
 import (
+	"context"
+	"errors"
+	"fmt"
 	"math/rand"
+	"net"
+	"runtime"
+	"sort"
+	"strconv"
+	"strings"
+	"sync"
+	"time"
+
+	"github.com/renbou/grpcbridge"
+	"github.com/renbou/grpcbridge/grpcadapter"
+	"github.com/renbou/grpcbridge/routing"
+	"google.golang.org/grpc"
+	"google.golang.org/grpc/codes"
+	"google.golang.org/grpc/credentials/insecure"
+	"google.golang.org/grpc/reflection"
+	"google.golang.org/grpc/status"
+	"google.golang.org/grpc/test/bufconn"
+	"google.golang.org/protobuf/types/known/emptypb"
 )
 
 type Area struct{}
 
 func (Area) Name() string { return "c16" }
 
-func (Area) Exec(input string) string { return "UNIMPLEMENTED" }
+var names = []string{"alpha", "beta", "gamma", "delta"}
 
-func (Area) Gen(r *rand.Rand, tier string, emit func(string)) {}
+var errInjected = errors.New("c16: injected connection construction failure")
+
+const waitMethod = "/c16.Svc/Wait"
+
+const (
+	opTimeout   = 20 * time.Second // an operation of the real code that takes longer is reported as "hang"
+	endTimeout  = 3 * time.Second  // how long an in-flight call may take to end after its connection was removed
+	leakTimeout = 3 * time.Second  // how long background goroutines may take to exit
+)
+
+// ---- goroutine accounting (runtime stack diff; no third-party dependency) ----
+
+type gor struct {
+	id    string
+	stack string
+}
+
+func goroutines() []gor {
+	buf := make([]byte, 1<<20)
+	for {
+		n := runtime.Stack(buf, true)
+		if n < len(buf) {
+			buf = buf[:n]
+			break
+		}
+		buf = make([]byte, 2*len(buf))
+	}
+	var out []gor
+	for _, blk := range strings.Split(string(buf), "\n\n") {
+		blk = strings.TrimSpace(blk)
+		if !strings.HasPrefix(blk, "goroutine ") {
+			continue
+		}
+		rest := blk[len("goroutine "):]
+		sp := strings.IndexByte(rest, ' ')
+		if sp < 0 {
+			continue
+		}
+		out = append(out, gor{id: rest[:sp], stack: blk})
+	}
+	return out
+}
+
+func goroutineIDs() map[string]bool {
+	m := map[string]bool{}
+	for _, g := range goroutines() {
+		m[g.id] = true
+	}
+	return m
+}
+
+func countPollers() int {
+	n := 0
+	for _, g := range goroutines() {
+		if strings.Contains(g.stack, "reflection.(*Resolver).watch") {
+			n++
+		}
+	}
+	return n
+}
+
+// leaked returns the goroutines that are neither in the baseline nor part of the harness frame.
+func leaked(base map[string]bool) []gor {
+	var out []gor
+	for _, g := range goroutines() {
+		if base[g.id] || strings.Contains(g.stack, "c16.goroutines") {
+			continue
+		}
+		out = append(out, g)
+	}
+	return out
+}
+
+func waitFor(d time.Duration, cond func() bool) bool {
+	deadline := time.Now().Add(d)
+	for pause := 50 * time.Microsecond; ; pause *= 2 {
+		if cond() {
+			return true
+		}
+		if time.Now().After(deadline) {
+			return false
+		}
+		if pause > 20*time.Millisecond {
+			pause = 20 * time.Millisecond
+		}
+		time.Sleep(pause)
+	}
+}
+
+// ---- environment of one history ----
+
+type call struct {
+	id   int
+	conn grpcadapter.ClientConn
+	st   grpcadapter.ClientStream
+	done chan struct{}
+	code codes.Code
+}
+
+type env struct {
+	lis  *bufconn.Listener
+	srv  *grpc.Server
+	pool *grpcadapter.AdaptedClientPool
+	rr   *grpcbridge.ReflectionRouter
+
+	// set before each Add/New: what the injected constructor does and which name it probes
+	fail      bool
+	probeName string
+	probe     string // result of the mid-construction pool lookup ("" = constructor not invoked)
+
+	handles map[int]grpcadapter.ClientConn
+	calls   []*call
+	ctrls   []*grpcadapter.AdaptedClientPoolController
+	ctrlCon []grpcadapter.ClientConn // the connection each issued controller owns (looked up right after New)
+	live    int // successful Adds minus successful Removes, from the return values
+}
+
+var (
+	statMu    sync.Mutex
+	statCodes = map[string]int{} // how in-flight calls ended
+	statOps   = map[string]int{}
+	statLeak  []string
+)
+
+// Extra is copied into the evidence.
+func (Area) Extra() map[string]any {
+	statMu.Lock()
+	defer statMu.Unlock()
+	return map[string]any{"inflight_call_end_codes": statCodes, "op_result_histogram": statOps, "leak_samples": statLeak}
+}
+
+func newEnv(refl bool) *env {
+	e := &env{handles: map[int]grpcadapter.ClientConn{}}
+	e.lis = bufconn.Listen(1 << 16)
+	e.srv = grpc.NewServer(grpc.UnknownServiceHandler(func(_ any, stream grpc.ServerStream) error {
+		if m, _ := grpc.MethodFromServerStream(stream); m != waitMethod {
+			return status.Error(codes.Unimplemented, "c16: unknown method") // e.g. reflection when r0
+		}
+		<-stream.Context().Done() // never answers: the call stays in flight until the client side ends it
+		return status.Error(codes.Canceled, "c16: call ended")
+	}))
+	if refl {
+		reflection.Register(e.srv)
+	}
+	go func() { _ = e.srv.Serve(e.lis) }()
+	return e
+}
+
+func (e *env) connFunc(target string, _ ...grpc.DialOption) (*grpc.ClientConn, error) {
+	// the pool lookup as another goroutine would see it while the connection is being constructed
+	e.probe = e.getKind(e.probeName)
+	if e.fail {
+		return nil, errInjected
+	}
+	return grpc.NewClient("passthrough:///c16-bufnet",
+		grpc.WithContextDialer(func(ctx context.Context, _ string) (net.Conn, error) { return e.lis.DialContext(ctx) }),
+		grpc.WithTransportCredentials(insecure.NewCredentials()))
+}
+
+func isNilConn(c grpcadapter.ClientConn) bool {
+	if c == nil {
+		return true
+	}
+	if ac, ok := c.(*grpcadapter.AdaptedClientConn); ok && ac == nil {
+		return true
+	}
+	return false
+}
+
+func (e *env) getKind(name string) string {
+	c, ok := e.pool.Get(name)
+	switch {
+	case !ok:
+		return "a"
+	case isNilConn(c):
+		return "n"
+	default:
+		return "u"
+	}
+}
+
+func (e *env) get(i int) string {
+	c, ok := e.pool.Get(names[i])
+	switch {
+	case !ok:
+		return "absent"
+	case isNilConn(c):
+		return "nil"
+	default:
+		e.handles[i] = c
+		return "usable"
+	}
+}
+
+func codeTok(err error) string {
+	switch c := status.Code(err); c {
+	case codes.OK:
+		return "ok"
+	case codes.Unavailable:
+		return "unavail"
+	default:
+		return "code" + strconv.Itoa(int(c))
+	}
+}
+
+func (e *env) stream(i int, keep bool) string {
+	h, ok := e.handles[i]
+	if !ok {
+		return "nohandle"
+	}
+	ctx, cancel := context.WithTimeout(context.Background(), 5*time.Second)
+	defer cancel()
+	st, err := h.Stream(ctx, waitMethod)
+	if err != nil {
+		return codeTok(err)
+	}
+	if !keep {
+		st.Close()
+		return "ok"
+	}
+	c := &call{id: len(e.calls), conn: h, st: st, done: make(chan struct{})}
+	e.calls = append(e.calls, c)
+	go func() {
+		err := st.Recv(context.Background(), new(emptypb.Empty))
+		c.code = status.Code(err)
+		close(c.done)
+	}()
+	return "ok"
+}
+
+// waitEnded waits for the in-flight calls on conn to end; returns how many did not.
+func (e *env) waitEnded(conn grpcadapter.ClientConn) int {
+	stuck := 0
+	for _, c := range e.calls {
+		if c.conn != conn {
+			continue
+		}
+		select {
+		case <-c.done:
+		case <-time.After(endTimeout):
+			stuck++
+		}
+	}
+	return stuck
+}
+
+func (e *env) alive() string {
+	var ids []string
+	for _, c := range e.calls {
+		select {
+		case <-c.done:
+		default:
+			ids = append(ids, strconv.Itoa(c.id))
+		}
+	}
+	if len(ids) == 0 {
+		return "-"
+	}
+	return strings.Join(ids, ",")
+}
+
+func (e *env) add(i int, mode byte) string {
+	e.fail, e.probeName, e.probe = mode == 'f', names[i], ""
+	var opts []grpcbridge.RouterOption
+	if mode == 'p' {
+		opts = append(opts, grpcbridge.WithDialOpts())
+	}
+	ok, err := e.rr.Add(names[i], "c16-target-"+names[i], opts...)
+	res := ""
+	switch {
+	case ok && err == nil:
+		res = "ok"
+		e.live++
+	case ok || err == nil:
+		res = "inconsistent" // (true, err) or (false, nil): never documented
+	case errors.Is(err, errInjected):
+		res = "conn"
+	case errors.Is(err, grpcadapter.ErrAlreadyDialed):
+		res = "dialed"
+	case errors.Is(err, routing.ErrAlreadyWatching):
+		res = "watch"
+	case strings.Contains(err.Error(), "adding the same target twice"):
+		res = "dup"
+	case strings.Contains(err.Error(), "per-target option overrides"):
+		res = "opts"
+	default:
+		res = "err"
+	}
+	if e.probe != "" {
+		res += "~" + e.probe
+	}
+	return res
+}
+
+func (e *env) remove(i int) string {
+	before, _ := e.pool.Get(names[i])
+	if !e.rr.Remove(names[i]) {
+		return "f"
+	}
+	e.live--
+	stuck := 0
+	if !isNilConn(before) {
+		stuck = e.waitEnded(before)
+	}
+	return "t:" + strconv.Itoa(stuck)
+}
+
+func (e *env) poolNew(i int, mode byte) string {
+	e.fail, e.probeName, e.probe = mode == 'f', names[i], ""
+	ctrl, err := e.pool.New(names[i], "c16-target-"+names[i])
+	res := ""
+	switch {
+	case err == nil && ctrl != nil:
+		res = "ok"
+		own, _ := e.pool.Get(names[i])
+		e.ctrls = append(e.ctrls, ctrl)
+		e.ctrlCon = append(e.ctrlCon, own)
+	case err == nil:
+		res = "inconsistent"
+	case errors.Is(err, errInjected):
+		res = "conn"
+	case errors.Is(err, grpcadapter.ErrAlreadyDialed):
+		res = "dialed"
+	default:
+		res = "err"
+	}
+	if e.probe != "" {
+		res += "~" + e.probe
+	}
+	return res
+}
+
+func (e *env) ctrlClose(k int) string {
+	if k >= len(e.ctrls) {
+		return "nosuch"
+	}
+	conn := e.ctrlCon[k]
+	e.ctrls[k].Close()
+	stuck := 0
+	if !isNilConn(conn) {
+		stuck = e.waitEnded(conn)
+	}
+	return "closed:" + strconv.Itoa(stuck)
+}
+
+// guarded runs one operation of the real code; a panic becomes "panic", no return within opTimeout becomes "hang".
+func guarded(f func() string) string {
+	ch := make(chan string, 1)
+	go func() {
+		defer func() {
+			if r := recover(); r != nil {
+				ch <- "panic"
+			}
+		}()
+		ch <- f()
+	}()
+	select {
+	case s := <-ch:
+		return s
+	case <-time.After(opTimeout):
+		return "hang"
+	}
+}
+
+var warm sync.Once
+
+func (a Area) Exec(input string) string {
+	warm.Do(func() { // start lazily created process-wide goroutines before any baseline is taken
+		execLine("rr p0r1 A0o G0 S0 R0")
+		execLine("pool p0r0 N0o G0 S0 K0")
+		time.Sleep(20 * time.Millisecond)
+	})
+	return execLine(input)
+}
+
+func execLine(input string) string {
+	f := strings.Fields(input)
+	if len(f) < 2 || (f[0] != "rr" && f[0] != "pool") || len(f[1]) != 4 {
+		return "BADOP"
+	}
+	isRouter := f[0] == "rr"
+	poll, refl := f[1][1] == '1', f[1][3] == '1'
+
+	base := goroutineIDs()
+	e := newEnv(refl)
+	if isRouter {
+		opts := []grpcbridge.RouterOption{grpcbridge.WithConnFunc(e.connFunc)}
+		if poll {
+			opts = append(opts, grpcbridge.WithReflectionPollInterval(time.Second))
+		} else {
+			opts = append(opts, grpcbridge.WithDisabledReflectionPolling())
+		}
+		e.rr = grpcbridge.NewReflectionRouter(opts...)
+		e.pool = e.rr.VerifConnPool()
+	} else {
+		e.pool = grpcadapter.NewAdaptedClientPool(grpcadapter.AdaptedClientPoolOpts{NewClientFunc: e.connFunc})
+	}
+
+	var out []string
+	hung := false
+	for _, op := range f[2:] {
+		if len(op) < 2 {
+			return "BADOP"
+		}
+		idx, err := strconv.Atoi(strings.TrimRight(op[1:], "ofp"))
+		if err != nil || (op[0] != 'K' && idx >= len(names)) {
+			return "BADOP"
+		}
+		mode := op[len(op)-1]
+		var tok string
+		switch {
+		case op[0] == 'A' && isRouter:
+			tok = guarded(func() string { return e.add(idx, mode) })
+		case op[0] == 'R' && isRouter:
+			tok = guarded(func() string { return e.remove(idx) })
+		case op[0] == 'N' && !isRouter:
+			tok = guarded(func() string { return e.poolNew(idx, mode) })
+		case op[0] == 'K' && !isRouter:
+			tok = guarded(func() string { return e.ctrlClose(idx) })
+		case op[0] == 'G':
+			tok = guarded(func() string { return e.get(idx) })
+		case op[0] == 'S':
+			tok = guarded(func() string { return e.stream(idx, false) })
+		case op[0] == 'C':
+			tok = guarded(func() string { return e.stream(idx, true) })
+		default:
+			return "BADOP"
+		}
+		out = append(out, tok)
+		statMu.Lock()
+		statOps[string(op[0])+":"+strings.SplitN(tok, ":", 2)[0]]++
+		statMu.Unlock()
+		if tok == "hang" {
+			hung = true
+			break
+		}
+	}
+	if hung {
+		// the real code is stuck inside an operation: nothing further can be observed safely
+		go e.srv.Stop()
+		return strings.Join(append(out, "aborted"), " ")
+	}
+
+	// observations after the history
+	if isRouter {
+		waitFor(leakTimeout, func() bool { return countPollers() <= e.live })
+		out = append(out, fmt.Sprintf("w=%d", countPollers()), fmt.Sprintf("n=%d", e.rr.VerifTargetCount()))
+	}
+	out = append(out, "alive="+e.alive())
+
+	// teardown through the operations under test: remove every target / close every controller
+	tearOK := guarded(func() string {
+		if isRouter {
+			for i := range names {
+				e.remove(i)
+			}
+		} else {
+			for k := range e.ctrls {
+				func() {
+					defer func() { _ = recover() }() // closed before by the history
+					e.ctrlClose(k)
+				}()
+			}
+		}
+		return "ok"
+	})
+	stuckAtEnd := 0
+	for _, c := range e.calls {
+		select {
+		case <-c.done:
+		default:
+			// a call still alive after every target is gone: on a connection that was never closed
+			stuckAtEnd++
+			c.st.Close()
+			<-c.done
+		}
+		statMu.Lock()
+		statCodes[c.code.String()]++
+		statMu.Unlock()
+	}
+	e.srv.Stop()
+	_ = e.lis.Close()
+	var left []gor
+	waitFor(leakTimeout, func() bool { left = leaked(base); return len(left) == 0 })
+	if len(left) > 0 {
+		statMu.Lock()
+		if len(statLeak) < 3 {
+			lines := strings.Split(left[0].stack, "\n")
+			if len(lines) > 6 {
+				lines = lines[:6]
+			}
+			statLeak = append(statLeak, input+" :: "+strings.Join(lines, " | "))
+		}
+		statMu.Unlock()
+	}
+	if tearOK != "ok" {
+		out = append(out, "teardown="+tearOK)
+	}
+	out = append(out, fmt.Sprintf("leak=%d", len(left)+stuckAtEnd))
+	return strings.Join(out, " ")
+}
+
+// ---- generator ----
+
+func (Area) Gen(r *rand.Rand, tier string, emit func(string)) {
+	cfgs := []string{"p0r1", "p0r0", "p1r1", "p1r0"}
+	line := func(kind, cfg string, ops []string) { emit(kind + " " + cfg + " " + strings.Join(ops, " ")) }
+
+	// 1. hand-written edge cases (the D17 witness first)
+	for _, h := range []string{
+		"A0f A0o G0", "A0f G0", "A0f A0f A0o R0 A0o", "A0o R0 A0o R0 A0o", "A0o A0o A0f A0p R0 R0",
+		"A0o G0 C0 C0 R0 S0 G0", "A0o G0 R0 A0o S0 G0 S0", "A0o A1o G0 G1 C0 C1 R0 S0 S1", "A0p A0o A0p",
+		"A0o A1f A2o R1 A1o R0 R2 R1", "R0 G0 S0 C0", "A0o G0 C0 A1o G1 C1 R1 R0",
+	} {
+		for _, c := range cfgs {
+			line("rr", c, strings.Fields(h))
+		}
+	}
+	for _, h := range []string{
+		"N0f N0o G0", "N0f G0", "N0o K0 N0o K1", "N0o N0o K0 K0", "N0o G0 C0 K0 S0 G0", "N0o G0 K0 N0o S0 G0 S0",
+		"N0o N1f N1o G1 C1 K1 K0", "K0 G0 S0", "N0o K0 K0", "N0f N0f N0o K0 N0f N0o",
+	} {
+		line("pool", "p0r0", strings.Fields(h))
+	}
+
+	// 2. every history up to a small length over a small alphabet
+	rrAlpha := []string{"A0o", "A0f", "R0", "G0", "S0", "A1o", "R1"}
+	plAlpha := []string{"N0o", "N0f", "K0", "K1", "G0", "S0"}
+	maxLen := 3
+	if tier == "thorough" {
+		maxLen = 4
+	}
+	var rec func(kind, cfg string, alpha, prefix []string)
+	rec = func(kind, cfg string, alpha, prefix []string) {
+		if len(prefix) > 0 {
+			line(kind, cfg, prefix)
+		}
+		if len(prefix) == maxLen {
+			return
+		}
+		for _, a := range alpha {
+			rec(kind, cfg, alpha, append(append([]string{}, prefix...), a))
+		}
+	}
+	rec("rr", "p0r1", rrAlpha, nil)
+	rec("pool", "p0r0", plAlpha, nil)
+
+	// 3. seeded random histories, biased towards re-adding after failures/removals with calls in flight
+	n, maxOps, nNames := 250, 12, 3
+	if tier == "thorough" {
+		n, maxOps, nNames = 4000, 30, 4
+	}
+	for k := 0; k < n; k++ {
+		cfg := common_pick(r, cfgs)
+		router := r.Intn(4) != 0
+		l := 1 + r.Intn(maxOps)
+		var ops []string
+		present := map[int]bool{}
+		issued := 0
+		for j := 0; j < l; j++ {
+			i := r.Intn(nNames)
+			x := r.Intn(100)
+			switch {
+			case x < 30:
+				m := "o"
+				if y := r.Intn(10); y < 3 {
+					m = "f"
+				} else if y == 3 && router {
+					m = "p"
+				}
+				if router {
+					ops = append(ops, fmt.Sprintf("A%d%s", i, m))
+				} else {
+					ops = append(ops, fmt.Sprintf("N%d%s", i, m))
+					if m == "o" && !present[i] {
+						issued++
+					}
+				}
+				if m == "o" {
+					present[i] = true
+				}
+			case x < 50:
+				if router {
+					if len(present) > 0 && r.Intn(4) != 0 { // usually remove something that is there
+						keys := make([]int, 0, len(present))
+						for k := range present {
+							keys = append(keys, k)
+						}
+						sort.Ints(keys)
+						i = keys[r.Intn(len(keys))]
+					}
+					ops = append(ops, fmt.Sprintf("R%d", i))
+					delete(present, i)
+				} else {
+					kk := r.Intn(issued + 1)
+					ops = append(ops, fmt.Sprintf("K%d", kk))
+					if r.Intn(3) == 0 {
+						present = map[int]bool{} // lose track on purpose: some double closes and stale New
+					}
+				}
+			case x < 68:
+				ops = append(ops, fmt.Sprintf("G%d", i))
+			case x < 84:
+				ops = append(ops, fmt.Sprintf("S%d", i))
+			default:
+				ops = append(ops, fmt.Sprintf("G%d", i), fmt.Sprintf("C%d", i))
+			}
+		}
+		if router {
+			line("rr", cfg, ops)
+		} else {
+			line("pool", cfg, ops)
+		}
+	}
+}
+
+func common_pick(r *rand.Rand, xs []string) string { return xs[r.Intn(len(xs))] }
